@@ -30,7 +30,7 @@ SmallAlphabet == {"ns_a", "search_b", "dom_a", "opt_ndots2", "opt_timeout3", "lo
 LookupAlphabet == {"lookup_bf", "lookup_junk"}
 NssSmall == {"nss_b", "nss_unknown_only", "nss_junk_binary"}
 \* one or two representatives per directive / junk family for the length-4 enumeration
-MidAlphabet == {"ns_a", "ns_b", "ns_6p", "ns_bad", "dom_a", "search_b", "search_cd", "search_empty",
+MidAlphabet == {"ns_a", "ns_b", "ns_6p", "ns_bad", "ns_uri_bad", "dom_a", "search_b", "search_cd", "search_empty",
                 "sort_1", "sort_2", "sort_bad", "opt_ndots2", "opt_timeout3", "opt_attempts2", "opt_rotate",
                 "opt_multi", "opt_unknown", "opt_zero", "opt_ndots_big", "lookup_bf", "lookup_junk",
                 "comment_hash", "junk_binary", "junk_lone"}
